@@ -17,7 +17,11 @@ RULE = ("every level spelling (all documented names in three letter cases) and i
         "and idempotence of the factory; format strings enumerated over field names x conversion types x escapes for the four "
         "styles with and without arbitrary-fields: accepted at load => the factory builds the formatter and an ordinary record "
         "formats without raising; sequences of up to 6 operations {call factory, reopen, close all, drop handler reference} "
-        "against the registry model. non-trivial = a section with a handler or a format; distinct by configuration text")
+        "against the registry model, the handlers created with and without delay and records emitted in between (a delayed "
+        "handler opens its file at its first record); configured logfile sections {plain, size, timed rotation} x delay x "
+        "encoding through their factories: records, files moved away, reopenFiles(), records, closeFiles() - every live handler "
+        "writes to a fresh file afterwards resp. has no open stream, closed / dropped handlers are left alone. "
+        "non-trivial = a section with a handler or a format; distinct by configuration text")
 
 SCHEMA = """<schema>
  <import package='ZConfig.components.logger'/>
@@ -290,6 +294,7 @@ def run(ctx):
         # ---------------------------------------------------------------- registry
         _registry(ctx, rng, tmp, loghandler)
         _factory_reopen(ctx, load, tmp)
+        _configured_files(ctx, rng, tmp, loghandler)
     finally:
         loghandler.closeFiles()
         root = logging.getLogger()
@@ -500,6 +505,139 @@ def _factory_reopen(ctx, load, tmp):
         reset_logging(["zcv.c20.ro"])
 
 
+def _configured_files(ctx, rng, tmp, loghandler):
+    """reopening / closing log files through the configuration: logger sections with 1..3 logfile handlers over {plain, size
+    rotation, timed rotation} x delay x encoding; the factory is called, 0..2 records are logged (a handler configured with
+    `delay` opens its file at its first record), possibly one handler is taken off its logger and closed or dropped by the
+    application, the files are moved away the way an external log rotation does, loghandler.reopenFiles(), 1..2 further records,
+    loghandler.closeFiles().  Stated directly on the files and streams (no model): every handler still alive wrote the earlier
+    records into the file that was moved away and the later ones into a fresh file at the configured path; the file of a
+    closed / dropped handler is not created again; after closeFiles() no handler keeps an open stream, and a further
+    reopenFiles() creates no file"""
+    variants = [(k, d, e) for k in ("plain", "size", "timed") for d in (False, True) for e in (None, "utf-8")]
+    moved_dir = os.path.join(tmp, "moved")
+    os.makedirs(moved_dir, exist_ok=True)
+
+    def read(p_):
+        if not os.path.exists(p_):
+            return ""
+        with open(p_, encoding="utf-8") as f_:
+            return f_.read()
+
+    ntrials = 80 if ctx.thorough() else 24
+    for trial in range(ntrials):
+        if trial < 4:
+            hs = variants[trial * 3:(trial + 1) * 3]         # every variant at least once per run
+            pre, post, away = (1, 1, None) if trial % 2 == 0 else (rng.randint(0, 2), rng.randint(1, 2), None)
+        else:
+            hs = [rng.choice(variants) for _ in range(rng.randint(1, 3))]
+            pre, post = rng.randint(0, 2), rng.randint(1, 2)
+            away = rng.choice([None, None, "close", "drop"])
+        name = "zcv.c20.cf%d" % trial
+        paths = [os.path.join(tmp, "cf%d_%d.log" % (trial, i)) for i in range(len(hs))]
+        lines = ["<logger>", "  name " + name, "  level info", "  propagate no"]
+        for (kind, delay, enc), p_ in zip(hs, paths):
+            lines += ["  <logfile>", "    path " + p_, "    format %(message)s"]
+            if kind == "size":
+                lines += ["    max-size 100000", "    old-files 2"]
+            elif kind == "timed":
+                lines += ["    when D", "    interval 3", "    old-files 2"]
+            if delay:
+                lines.append("    delay true")
+            if enc:
+                lines.append("    encoding " + enc)
+            lines.append("  </logfile>")
+        lines.append("</logger>")
+        text = "\n".join(lines) + "\n"
+        loghandler.closeFiles()
+        r = load(text)
+        ctx.evaluations += 1
+        ctx.nontriv(text)
+        if r[0] != "ok":
+            ctx.violate("valid logger section rejected: %r" % (r[1:],), {"text": text}, signature="C20:valid-rejected")
+            continue
+        history = ["factory()"]
+        logger = None
+        try:
+            try:
+                logger = r[1].loggers[0]()
+            except Exception as e:
+                ctx.violate("logger factory raised %s for an accepted section" % type(e).__name__, {"text": text}, signature="C20:factory:exc")
+                continue
+            if len(logger.handlers) != len(hs):
+                ctx.violate("logger with %d logfile sections got %d handlers" % (len(hs), len(logger.handlers)), {"text": text},
+                            signature="C20:setup:handlers")
+                continue
+            for j in range(pre):
+                logger.warning("a%d", j)
+                history.append("log a%d" % j)
+            gone = None
+            if away is not None and len(hs) > 1:
+                gone = rng.randrange(len(hs))
+                h = logger.handlers[gone]
+                logger.removeHandler(h)
+                if away == "close":
+                    h.close()
+                else:
+                    r = None        # the handler factories of the configuration remember their handlers: let go of them too
+                del h
+                gc.collect()
+                history.append("handler %d removed from the logger and %s" % (gone, "closed" if away == "close" else "dropped"))
+            for p_ in paths:
+                if os.path.exists(p_):
+                    os.rename(p_, os.path.join(moved_dir, os.path.basename(p_)))
+            history.append("files moved away")
+            loghandler.reopenFiles()
+            history.append("reopenFiles()")
+            for j in range(post):
+                logger.warning("b%d", j)
+                history.append("log b%d" % j)
+            for h in logger.handlers:
+                h.flush()
+            before = "".join("a%d\n" % j for j in range(pre))
+            after = "".join("b%d\n" % j for j in range(post))
+            ctx.count("configured-files:histories")
+            ctx.count("configured-files:handlers", len(hs))
+            if pre and any(d for _, d, _ in hs):
+                ctx.count("configured-files:delayed-handler-opened-before-reopen")
+            bad = []
+            for i, ((kind, delay, enc), p_) in enumerate(zip(hs, paths)):
+                what = "%s%s" % (kind, " delay" if delay else "")
+                old, cur = read(os.path.join(moved_dir, os.path.basename(p_))), read(p_)
+                if i == gone:
+                    if os.path.exists(p_):
+                        bad.append(["handler %d (%s) was %s before reopenFiles(), its file was created again" % (i, what, "closed" if away == "close" else "dropped"), cur])
+                elif old != before or cur != after:
+                    bad.append(["handler %d (%s): the file moved away holds %r (records before: %r), the configured path holds %r (records after reopenFiles(): %r)"
+                                % (i, what, old, before, cur, after), [old, cur]])
+            if bad:
+                ctx.violate("reopenFiles() did not act on exactly the live file handlers of this configuration: " + "; ".join(b[0] for b in bad),
+                            {"text": text, "history": list(history), "observed": bad}, signature="C20:files:reopen")
+            loghandler.closeFiles()
+            history.append("closeFiles()")
+            still = [os.path.basename(h.baseFilename) for h in logger.handlers if getattr(h, "stream", None) is not None and not h.stream.closed]
+            if still:
+                ctx.violate("closeFiles() left %d of the %d live file handlers of this configuration with an open stream (after %r)"
+                            % (len(still), len(logger.handlers), history),
+                            {"text": text, "history": list(history), "open_handlers": still,
+                             "handlers": {os.path.basename(p_): "%s%s" % (k, " delay" if d else "") for (k, d, _), p_ in zip(hs, paths)}}, signature="C20:files:closeall-left-open")
+            for p_ in paths:
+                if os.path.exists(p_):
+                    os.remove(p_)
+            loghandler.reopenFiles()
+            history.append("files removed; reopenFiles()")
+            again = [os.path.basename(p_) for p_ in paths if os.path.exists(p_)]
+            if again and not still:
+                ctx.violate("reopenFiles() after closeFiles() created %r again: closed handlers were reopened" % (again,),
+                            {"text": text, "history": list(history), "files": again}, signature="C20:reopen:closed-handler-touched")
+        finally:
+            reset_logging([name])
+            for p_ in paths:
+                for q in (p_, os.path.join(moved_dir, os.path.basename(p_))):
+                    if os.path.exists(q):
+                        os.remove(q)
+
+
 def _registry(ctx, rng, tmp, loghandler):
     def counting(base):
         class C(base):
@@ -511,16 +649,24 @@ def _registry(ctx, rng, tmp, loghandler):
         return C
     classes = {"file": counting(loghandler.FileHandler), "rot": counting(loghandler.RotatingFileHandler),
                "timed": counting(loghandler.TimedRotatingFileHandler)}
-    nseq = 300 if ctx.thorough() else 40
+    nseq = 400 if ctx.thorough() else 120
     # fixed sequences first: several handlers alive when everything is closed / reopened, with and without one dropped or
-    # closed by the application before
+    # closed by the application before; handlers created with delay (no stream until the first record) with and without a
+    # record emitted before the files are reopened / closed
     directed = [
         ["create:file", "create:file", "create:file", "closeall"],
         ["create:file", "create:file", "create:file", "create:file", "drop", "closeall"],
         ["create:file", "create:file", "close", "create:file", "closeall", "reopen"],
         ["create:file", "create:rot", "create:file", "reopen", "closeall"],
         ["create:file", "create:file", "closeall", "closeall", "create:file", "closeall"],
+        ["create:file:delay", "emit:0", "closeall"],
+        ["create:file:delay", "closeall", "reopen"],
+        ["create:file:delay", "create:file", "emit:0", "emit:1", "reopen", "emit:0", "closeall"],
+        ["create:rot:delay", "create:timed:delay", "emit:0", "emit:1", "reopen", "closeall"],
+        ["create:file:delay", "create:rot:delay", "reopen", "emit:0", "emit:1", "reopen"],
+        ["create:timed:delay", "create:file:delay", "emit:1", "drop", "reopen", "closeall"],
     ]
+    observed = []
     for si in range(len(directed) + nseq):
         plan = list(directed[si]) if si < len(directed) else None
         loghandler.closeFiles()
@@ -529,25 +675,34 @@ def _registry(ctx, rng, tmp, loghandler):
         ops, mops = [], []
         live = {}          # id -> handler (strong reference held by "the application")
         kinds = {}
+        delayed = {}
         explicitly_closed = set()
+        maybe_closed = set()        # closed by the application or alive at a closeFiles(): no records are sent to these
+        emitted = set()             # handlers that got a record since they were created / since the last reopenFiles()
+        left_open = None
         created = 0
         for _ in range(len(plan) if plan is not None else rng.randint(2, 6)):
-            k = plan.pop(0) if plan is not None else rng.choice(["create", "create", "reopen", "closeall", "drop", "close"])
-            forced_kind = None
+            k = plan.pop(0) if plan is not None else rng.choice(["create", "create", "reopen", "closeall", "drop", "close", "emit", "emit"])
+            forced_kind = forced_delay = forced_i = None
             if k.startswith("create:"):
-                k, forced_kind = "create", k.split(":")[1]
+                forced_kind, forced_delay = k.split(":")[1], k.endswith(":delay")
+                k = "create"
+            elif k.startswith("emit:"):
+                k, forced_i = "emit", int(k.split(":")[1])
             if k == "create":
                 kind = forced_kind or rng.choice(["file", "rot", "timed"])
+                delay = forced_delay if forced_delay is not None else rng.random() < 0.5
                 p = os.path.join(tmp, "r%d_%d.log" % (si, created))
                 if kind == "file":
-                    h = classes[kind](p)
+                    h = classes[kind](p, delay=delay)
                 elif kind == "rot":
-                    h = classes[kind](p, maxBytes=1000, backupCount=2)
+                    h = classes[kind](p, maxBytes=1000, backupCount=2, delay=delay)
                 else:
-                    h = classes[kind](p, when="D", backupCount=2)
+                    h = classes[kind](p, when="D", backupCount=2, delay=delay)
                 live[created] = h
                 kinds[created] = kind
-                ops.append("create:" + kind)
+                delayed[created] = delay
+                ops.append("create:" + kind + (":delay" if delay else ""))
                 mops.append(Atom("create"))
                 created += 1
                 del h
@@ -562,41 +717,71 @@ def _registry(ctx, rng, tmp, loghandler):
                 i = rng.choice(sorted(live))
                 live[i].close()
                 explicitly_closed.add(i)
+                maybe_closed.add(i)
                 ops.append("close:%d" % i)
                 mops.append([Atom("close"), i])
+            elif k == "emit":
+                # a record reaches a handler the application has not closed: a delayed handler opens its file now.  Neither
+                # the registry nor the reopen counts of the model depend on it (no model operation)
+                cand = [i for i in sorted(live) if i not in maybe_closed]
+                if forced_i is not None:
+                    cand = [i for i in cand if i == forced_i]
+                if cand:
+                    i = rng.choice(cand)
+                    live[i].handle(record("e", ()))
+                    emitted.add(i)
+                    ops.append("emit:%d" % i)
             elif k == "reopen":
                 loghandler.reopenFiles()
+                emitted.clear()
                 ops.append("reopen")
                 mops.append(Atom("reopen"))
             elif k == "closeall":
                 loghandler.closeFiles()
                 ops.append("closeall")
                 mops.append(Atom("closeall"))
+                maybe_closed.update(live)
+                # closing the log files acts on every file handler still alive: none of them keeps an open stream
+                still = [i for i, h in sorted(live.items()) if h.stream is not None and not h.stream.closed]
+                if still and left_open is None:
+                    left_open = (list(ops), still)
         ctx.evaluations += 1
         ctx.nontriv(("registry", tuple(ops)))
-        if ctx.driver_ok:
-            a = core.driver_batch([[Atom("regrun")] + mops])[0]
-            mreg = sorted(int(x) for x in a[0])
-            mh = {int(h[0]): (h[1] == "t", h[2] == "t", int(h[3])) for h in a[1]}
-            real_reg = sorted(i for i, h in live.items() if any(wr() is h for wr in loghandler._reopenable_handlers))
-            unknown = [wr for wr in loghandler._reopenable_handlers if wr() is not None and all(wr() is not h for h in live.values())]
-            if real_reg != [i for i in mreg if i in live] or unknown:
-                ctx.violate("registry of re-openable handlers after %r holds %r (+%d unknown), expected %r" % (ops, real_reg, len(unknown), mreg),
-                            {"ops": ops}, signature="C20:registry:membership")
-            else:
-                for i, h in live.items():
-                    alive, mclosed, mre = mh[i]
-                    if h.zcv_n != mre:
-                        ctx.violate("handler %d was reopened %d times after %r, expected %d" % (i, h.zcv_n, ops, mre), {"ops": ops},
-                                    signature="C20:registry:reopen-count")
-                    is_closed = h.stream is None or h.stream.closed
-                    if kinds[i] == "file" and mre == 0 and is_closed != mclosed:
-                        ctx.violate("handler %d closed=%r after %r, expected %r" % (i, is_closed, ops, mclosed), {"ops": ops},
-                                    signature="C20:registry:closed")
+        ctx.count("registry:with-delayed-handler" if any(delayed.values()) else "registry:no-delayed-handler")
+        if any(delayed.get(int(o.split(":")[1])) for o in ops if o.startswith("emit:")):
+            ctx.count("registry:record-to-delayed-handler")
+        if left_open is not None:
+            ctx.violate("after closeFiles() at the end of %r the live handlers %r (%s) still have an open stream"
+                        % (left_open[0], left_open[1], ", ".join(kinds[i] + (" delay" if delayed[i] else "") for i in left_open[1])),
+                        {"ops": left_open[0], "open_after_closeFiles": left_open[1]}, signature="C20:registry:closeall-left-open")
+        # what the real registry and handlers look like now; compared with the model after the last sequence (one driver call)
+        real_reg = sorted(i for i, h in live.items() if any(wr() is h for wr in loghandler._reopenable_handlers))
+        unknown = len([wr for wr in loghandler._reopenable_handlers if wr() is not None and all(wr() is not h for h in live.values())])
+        state = {i: (h.zcv_n, h.stream is None or h.stream.closed, kinds[i], delayed[i], i in emitted) for i, h in live.items()}
+        observed.append((ops, mops, real_reg, unknown, state))
         for h in live.values():
             h.close()
         live.clear()
         gc.collect()
+    if ctx.driver_ok:
+        answers = core.driver_batch([[Atom("regrun")] + mops for _, mops, _, _, _ in observed])
+        for (ops, mops, real_reg, unknown, state), a in zip(observed, answers):
+            mreg = sorted(int(x) for x in a[0])
+            mh = {int(h[0]): (h[1] == "t", h[2] == "t", int(h[3])) for h in a[1]}
+            if real_reg != [i for i in mreg if i in state] or unknown:
+                ctx.violate("registry of re-openable handlers after %r holds %r (+%d unknown), expected %r" % (ops, real_reg, unknown, mreg),
+                            {"ops": ops}, signature="C20:registry:membership")
+                continue
+            for i, (n_reopened, is_closed, kind, delay, got_record) in state.items():
+                alive, mclosed, mre = mh[i]
+                if n_reopened != mre:
+                    ctx.violate("handler %d was reopened %d times after %r, expected %d" % (i, n_reopened, ops, mre), {"ops": ops},
+                                signature="C20:registry:reopen-count")
+                # a delayed handler has a stream only once a record reached it
+                exp_closed = mclosed or (delay and not got_record)
+                if kind == "file" and mre == 0 and is_closed != exp_closed:
+                    ctx.violate("handler %d closed=%r after %r, expected %r" % (i, is_closed, ops, exp_closed), {"ops": ops},
+                                signature="C20:registry:closed")
 
 
 def _setup_model(ctx, rng, tmp):
